@@ -223,16 +223,16 @@ func (m *c18Mcu) NewSubscriber(ctx context.Context, listener signaling.McuListen
 // ---- case description (replayable) -----------------------------------------------
 
 type c18Tok struct {
-	Alg    string `json:"alg"`              // method that produces the signature
-	HdrAlg string `json:"hdr,omitempty"`    // "alg" written into the header when different ("-" = no alg field)
-	Iss    string `json:"iss"`              // issuer claim
-	Key    int    `json:"key"`              // signing key: 0,1 configured, 2 foreign
-	Iat    *int64 `json:"iat,omitempty"`    // offsets to the current time in seconds
+	Alg    string `json:"alg"`           // method that produces the signature
+	HdrAlg string `json:"hdr,omitempty"` // "alg" written into the header when different ("-" = no alg field)
+	Iss    string `json:"iss"`           // issuer claim
+	Key    int    `json:"key"`           // signing key: 0,1 configured, 2 foreign
+	Iat    *int64 `json:"iat,omitempty"` // offsets to the current time in seconds
 	Exp    *int64 `json:"exp,omitempty"`
 	Nbf    *int64 `json:"nbf,omitempty"`
-	Mut    string `json:"mut,omitempty"`    // mutation applied to the finished token
+	Mut    string `json:"mut,omitempty"` // mutation applied to the finished token
 	Pos    int    `json:"pos,omitempty"`
-	Class  string `json:"class,omitempty"`  // generator's label (statistics only)
+	Class  string `json:"class,omitempty"` // generator's label (statistics only)
 }
 
 type c18Op struct {
@@ -1314,7 +1314,12 @@ func c18Directed() []*c18Case {
 	v := func() *c18Tok { return &c18Tok{Alg: "RS256", Iss: "iss0", Key: 0, Iat: i64(0), Class: "valid"} }
 	var out []*c18Case
 	add := func(name string, ops ...c18Op) {
-		out = append(out, &c18Case{Family: "directed:" + name, Ops: ops})
+		c := &c18Case{Family: "directed:" + name, Ops: ops}
+		if strings.HasPrefix(name, "create-after-bye") || strings.HasPrefix(name, "create-after-expiry") {
+			// the witness schedules of the defect repaired by fixes/C18/01-*.patch
+			c.Finding = "C18/create-after-close"
+		}
+		out = append(out, c)
 	}
 	for _, kind := range []string{"create-pub", "create-sub"} {
 		// another connection resumes the session and says bye while the media server is still working
